@@ -173,8 +173,12 @@ def check_qubit_lists(ctx: Ctx):
     iq = repo.func("qlassfun.QlassF.input_qubits")
     r = q.returns(iq)
     t = norm(r[0].value).replace(" ", "") if r else ""
-    ok = t in ("list(range(reduce(lambdaa,b:a+len(b),self.args,0)))", "list(range(sum(len(a)forainself.args)))", "list(range(sum((len(a)forainself.args))))")
-    ctx.check(ok, "MP-inputs-first", iq, "input qubits = 0 .. (total argument bits - 1)", t[:60], f"input_qubits is `{t}`", iq.node)
+    v0 = q.strip_wrappers(r[0].value) if len(r) == 1 else None
+    tot = q.is_total_len(v0.args[0], "self.args") if isinstance(v0, ast.Call) and isinstance(v0.func, ast.Name) and v0.func.id == "range" and len(v0.args) == 1 else None
+    if tot is None:
+        ctx.undecided(iq.short, f"input_qubits is `{t[:80]}`: not range(<a sum over self.args>)")
+    else:
+        ctx.check(tot, "MP-inputs-first", iq, "input qubits = 0 .. (total argument bits - 1)", t[:60], f"input_qubits is `{t}`: the inputs are the first sum(len(arg)) qubits, one per argument bit", iq.node)
     oq = repo.func("qlassfun.QlassF.output_qubits")
     r = q.returns(oq)
     v = r[0].value if r else None
